@@ -297,3 +297,80 @@ def _replay_two(f):
 
 replayer('C12', 'two-session-hold-times')(_replay_two)
 replayer('C10', 'two-session-hold-times')(_replay_two)
+
+
+# ---------------------------------------------------------------------------------------------------------------------
+# the clock the timers read.  The timer contracts REQUIRE `last_read <= int(now)` ("an earlier reading of the same
+# non-decreasing clock"); the code reads time.time(), the wall clock, which an operator or NTP can step.
+from .registry import region  # noqa: E402
+
+
+def _clock_case(kind):
+    """the real ReceiveTimer / SendTimer with exabgp.bgp.timer's clock replaced by a scripted one"""
+    import exabgp.bgp.timer as T
+    from exabgp.bgp.message import KeepAlive, _NOP
+    from exabgp.bgp.message.notification import Notify
+    from exabgp.bgp.message.open.holdtime import HoldTime
+
+    class Clock:
+        now = 1_000_000.0
+
+        def time(self):
+            return self.now
+
+    clock, real = Clock(), T.time
+    T.time = clock
+    inp = {'scenario': kind}
+    try:
+        if kind == 'forward-step-on-a-live-session':
+            timer = T.ReceiveTimer(lambda: 'probe', HoldTime(90), 4, 0, 'hold timer expired')
+            timer.check_ka(KeepAlive())  # a KEEPALIVE just arrived
+            clock.now += 0.4
+            clock.now += 120  # the wall clock is stepped forward by two minutes
+            try:
+                timer.check_ka(_NOP)
+            except Notify:
+                return {'what': 'hold time 90 s, a KEEPALIVE received 0.4 s ago, the wall clock stepped forward by 120 s: the session is closed with 4/0 for a silence shorter than the hold time', 'input': inp}
+            return None
+        if kind == 'backward-step-with-a-silent-peer':
+            timer = T.ReceiveTimer(lambda: 'probe', HoldTime(3), 4, 0, 'hold timer expired')
+            timer.check_ka(KeepAlive())
+            clock.now -= 60  # the wall clock is stepped back by a minute
+            for _ in range(50):  # 50 s of silence, looked at every second
+                clock.now += 1
+                try:
+                    timer.check_ka(_NOP)
+                except Notify:
+                    return None
+            return {'what': 'hold time 3 s, the wall clock stepped back by 60 s, then 50 s of silence: the hold timer does not fire', 'input': inp}
+        if kind == 'backward-step-keepalives':
+            send = T.SendTimer(lambda: 'probe', HoldTime(3))
+            clock.now -= 60
+            for _ in range(50):
+                clock.now += 1
+                if send.need_ka():
+                    return None
+            return {'what': 'hold time 3 s (a KEEPALIVE is due every second), the wall clock stepped back by 60 s: no KEEPALIVE is due for 50 s', 'input': inp}
+    finally:
+        T.time = real
+    return None
+
+
+@region('C12-wall-clock-step')
+def clock_step_region(failure):
+    """recorded: bgp/timer.py computes with int(time.time()), the wall clock.  A step of that clock (an operator, NTP) is taken
+    for elapsed time: forward, a live session is closed with 4/0; backward, neither timer fires until the clock has caught
+    up.  Only the three stepped-clock scenarios of `clock-steps`."""
+    return failure.get('input', {}).get('scenario') in ('forward-step-on-a-live-session', 'backward-step-with-a-silent-peer', 'backward-step-keepalives')
+
+
+@bounded('C12', 'clock-steps')
+def clock_steps(tier, seed):
+    kinds = ['forward-step-on-a-live-session', 'backward-step-with-a-silent-peer', 'backward-step-keepalives']
+    fails = [f for f in (_clock_case(k) for k in kinds) if f]
+    return {'evaluations': len(kinds), 'distinct_nontrivial': len(kinds), 'bound': 'the real ReceiveTimer / SendTimer with a scripted clock: one forward step of 120 s on a live session (hold time 90), one backward step of 60 s with a silent peer / with KEEPALIVEs due (hold time 3), 50 s observed', 'rule': 'one case = one scenario', 'samples': [{'scenario': kinds[0]}], 'failures': fails}
+
+
+@replayer('C12', 'clock-steps')
+def _replay_clock(f):
+    return _clock_case(f['input']['scenario']) is None
